@@ -64,8 +64,7 @@ Proof.
     destruct (emit_from_in _ _ _ _ _ Hi) as (i & w & -> & H1 & H2). cbn [fst snd]. split.
     - now apply text_ok_bit_name.
     - unfold big_index. rewrite bitname_inverse.
-      + apply N.ltb_ge. unfold max_bits. change (Z.to_N 65536) with 65536. lia.
-      + destruct (e_name e) as [|ch r]; auto. apply negb_true_iff in Hbs. now apply N.eqb_neq in Hbs. }
+      apply N.ltb_ge. unfold max_bits. change (Z.to_N 65536) with 65536. lia. }
   unfold emit_cable in Hin. destruct (c_wires (e_cab e)) as [|w [|w' ws]] eqn:Ew.
   - destruct Hin.
   - destruct (c_array (e_cab e)) eqn:Ea.
@@ -83,8 +82,7 @@ Proof.
   apply andb_true_iff in H as [H Hk]. apply andb_true_iff in H as [H _]. apply andb_true_iff in H as [_ Hne].
   destruct (is_busb (e_cab e)) eqn:Hb.
   - right. apply andb_true_iff in Hk as [Hbs _]. repeat split; auto.
-    + intro E. rewrite E in Hne. discriminate.
-    + unfold name_ok. destruct (e_name e) as [|ch r]; auto. apply negb_true_iff in Hbs. now apply N.eqb_neq in Hbs.
+    intro E. rewrite E in Hne. discriminate.
   - left. apply andb_true_iff in Hk as [Hlo Hnb]. apply N.eqb_eq in Hlo.
     unfold is_busb in Hb. apply orb_false_iff in Hb as [Ha Hlen].
     destruct (e_cab e) as [lo ar ws] eqn:Ec. cbn [c_lower c_array c_wires] in *. subst lo ar.
